@@ -47,12 +47,15 @@ OpResult == CASE e.op = "NewGraph"    -> DoNewGraph(graphs, content, e.g)
 StepOp == /\ e.ev = "Op"
           /\ LET r == OpResult
                  flagOK == r.ok = e.ok
-                 obsOK == ObsOK(e.obs, e.names, r.G, r.C)
+                 \* an operation after which the driver did not look at the store (histories with rare listings): only
+                 \* the result flag is judged, the model moves on and the next observation is judged against it
+                 unobserved == "sparse" \in DOMAIN e /\ e.sparse
+                 obsOK == unobserved \/ ObsOK(e.obs, e.names, r.G, r.C)
              IN  IF flagOK /\ obsOK
                  THEN graphs' = r.G /\ content' = r.C
                  ELSE /\ PrintT(<<"REJECT", l, "C01", IF flagOK THEN "observation" ELSE "result-flag">>)
-                      /\ graphs' = ObsG(e.names)
-                      /\ content' = ObsC(e.obs)
+                      /\ graphs' = IF unobserved THEN r.G ELSE ObsG(e.names)
+                      /\ content' = IF unobserved THEN r.C ELSE ObsC(e.obs)
 
 \* a new store (Reset) or a chunk boundary (Anchor: the observation validated by the previous chunk)
 StepAnchor == /\ e.ev \in {"Reset", "Anchor"}
